@@ -266,6 +266,31 @@ func c17Fail(c *vkit.Ctx, r *rand.Rand, i int) {
 	if nfail == 0 {
 		return
 	}
+	if i%60 == 17 {
+		// a call with very many failing matchers (a table of expectations run against the wrong
+		// document): 95-160 paths that do not exist, each in a matcher of its own, around the
+		// ones drawn above - every one of them is named
+		extra := []int{95, 98, 99, 100, 101, 127, 128, 160}[r.IntN(8)]
+		for x := 0; x < extra; x++ {
+			p := fmt.Sprintf("zz_missing.n%03d", x)
+			if yaml {
+				p = "$." + p
+			}
+			switch x % 3 {
+			case 0:
+				ms = append(ms, match.Any(p))
+				specs = append(specs, fSpec{"Any", p, "missing-path"})
+			case 1:
+				ms = append(ms, match.Type[string](p))
+				specs = append(specs, fSpec{"Type", p, "missing-path"})
+			default:
+				ms = append(ms, match.Custom(p, func(v any) (any, error) { return v, nil }))
+				specs = append(specs, fSpec{"Custom", p, "missing-path"})
+			}
+		}
+		nfail += extra
+		c.Count("calls_with_about_a_hundred_failing_matchers", 1)
+	}
 	r.Shuffle(len(ms), func(a, b int) { ms[a], ms[b] = ms[b], ms[a]; specs[a], specs[b] = specs[b], specs[a] })
 	t := true
 	type md struct {
